@@ -4,6 +4,7 @@
 From Coq Require Import String ZArith List Bool.
 Require Import OV.Shape.SymDim OV.Shape.SymDimProofs OV.Shape.PartialEval OV.Shape.PartialEvalProofs.
 Require Import OV.Shape.Extra OV.Shape.ExtraProofs OV.Gen.ShapeUsers OV.Shape.Coverage OV.Shape.CoverageProofs.
+Require Import OV.Shape.Materialize OV.Shape.MaterializeProofs.
 Import ListNotations.
 Open Scope Z_scope.
 
@@ -72,6 +73,20 @@ Theorem C09_concat_drop_accepts_exactly_refuted : exists axis ops r,
 Proof. exact concat_drop_accepts_exactly_refuted. Qed.
 Print Assumptions C09_concat_drop_accepts_exactly_refuted.
 
+(* repaired evaluator (a zero-size operand is dropped only when its other dims are known equal to those of a kept
+   reference operand): the kept Concat accepts exactly what the original accepts, with the same output shape *)
+Theorem C09_concat_drop_fixed_accepts_exactly : forall axis ops ref ax,
+  In (true, ref) ops -> norm_axis (Z.of_nat (List.length ref)) axis = Some ax -> droppable_ref ax ref ops ->
+  concat_shape axis (kept ops) = concat_shape axis (map snd ops).
+Proof. exact concat_drop_fixed_accepts_exactly. Qed.
+Print Assumptions C09_concat_drop_fixed_accepts_exactly.
+
+(* the symbolic test of the repaired evaluator gives the compatibility hypothesis at every binding *)
+Theorem C09_keq_except_sound : forall ax a b, keq_except ax a b = true ->
+  forall rho ca cb, shape_denotes rho a ca -> shape_denotes rho b cb -> compatible ax ca cb = true.
+Proof. exact keq_except_sound. Qed.
+Print Assumptions C09_keq_except_sound.
+
 (* ---- SqueezeReshape: Reshape(Squeeze(x), [-1]) -> Identity(x) for 1-D x, sizes 0 and 1 included *)
 Theorem C09_squeeze_reshape_1d_sound : forall x, sqre_check x = true ->
   forall rho cx, (forall s, x = Some s -> shape_denotes rho s cx) -> Forall (fun n => 0 <= n) cx ->
@@ -138,3 +153,12 @@ Theorem C09_split_scalar_sound : forall d s r, split_scalar d s = Some r -> exis
   end.
 Proof. exact split_scalar_sound. Qed.
 Print Assumptions C09_split_scalar_sound.
+
+(* ---- Flatten2Reshape (known finding C09:flatten-to-reshape:zero-dim-with-inferred-dim): no repair by a better constant.
+   For Flatten(x, axis=1) on a rank-4 input with symbolic dims the rule must (repository tests ..._dynamic_input_1/_5) leave
+   one Reshape with a constant two-entry target; every such target [a; b], under either allowzero, is wrong or rejected for
+   some non-negative input shape of rank 4 *)
+Theorem C09_flatten_no_constant_target : forall az a b, exists cx,
+  List.length cx = 4%nat /\ Forall (fun n => 0 <= n) cx /\ reshape_out az cx [a; b] <> Some (flatten_out cx 1).
+Proof. exact flatten_no_constant_target. Qed.
+Print Assumptions C09_flatten_no_constant_target.
